@@ -607,8 +607,8 @@ def generator_statements(chk, rnd):
         stmts = g.statements(2, False)
         stmts = stmts[::5] + g.statements(1, False)[1::7][:150] + [g.random_statement(rnd, 3) for _ in range(40)]
     else:
-        stmts = g.statements(2, False) + rnd.sample(g.statements(2, True), 3000)
-        stmts += [g.random_statement(rnd, 3) for _ in range(400)] + [g.random_statement(rnd, 4) for _ in range(200)]
+        stmts = g.statements(2, False)[::2] + rnd.sample(g.statements(2, True), 1000)
+        stmts += [g.random_statement(rnd, 3) for _ in range(150)] + [g.random_statement(rnd, 4) for _ in range(50)]
     return stmts
 
 
